@@ -15,6 +15,31 @@ CHECKS = {
             'DESIGN.md 5/C20'),
 }
 
+_EXEC_NOTE = ('trusted: TLC, the program builder / projection (vf/build.py), the comparison (checks/execlib.py), the cooperative '
+              'scheduler for timeout/abort scenarios (stdlib entry points patched during a run, no openhtf code replaced)')
+CHECKS.update({
+    'C01': ('TLA+ spec Executor.tla (invariants NoFalsePass, Converse) checked by TLC; TLC-emitted scenarios replayed on the real executor',
+            'TLC checks NoFalsePass/Converse on every program of the families (settings x trees x behaviours) and emits every complete '
+            'scenario; each is run on the real Test/TestExecutor with scripted bodies and outcome, return value, executor-thread failure '
+            'and the statement of C01 itself are evaluated on the real record', _EXEC_NOTE, 'DESIGN.md 5/C01'),
+    'C02': ('TLA+ spec Executor.tla as executable reading of docs/event_sequence.md; exhaustive spec->code replay with conformance as the verdict',
+            'all node trees up to the bound (sequence/subtest/group/branch/checkpoint/phase) x behaviour assignments enumerated by TLC; '
+            'body order/multiplicity, cumulative record counts at each body start and the four record lists must equal the model', _EXEC_NOTE,
+            'DESIGN.md 5/C02'),
+    'C03': ('TLA+ spec Executor.tla (TeardownOnce, NotEnteredNoRun, PlugTdAfterNodes) checked by TLC; scenarios incl. abort/timeout replayed under a deterministic scheduler',
+            'group nestings x behaviours incl. timeout and an operator abort during any body; TLC checks the teardown invariants on the model, '
+            'every scenario is replayed on the real executor (virtual time) and the teardown rules are evaluated on the real call log', _EXEC_NOTE,
+            'DESIGN.md 5/C03'),
+    'C05': ('TLA+ spec Executor.tla (Invocation/ShouldRepeat decision table, AtMostLimit, OneRecordPerInvocation) checked by TLC; every row replayed',
+            'option vectors x positions x per-invocation (result, measurement status, diagnoser codes) sequences up to the repeat limit enumerated '
+            'by TLC and replayed; phase records (outcome, result, diagnosis results), invocation counts compared with the model', _EXEC_NOTE,
+            'DESIGN.md 5/C05'),
+    'C08': ('TLA+ spec Executor.tla plug lifecycle actions (AtMostOneInstance, TornDownOnce) checked by TLC; scenarios with fault vectors replayed',
+            'plug-to-phase assignments x constructor/tearDown fault vectors x phase behaviours enumerated by TLC; instrumented plug classes log '
+            'ctor/tearDown/instance ids; lifecycle rules evaluated on the real event log and compared with the model', _EXEC_NOTE,
+            'DESIGN.md 5/C08'),
+})
+
 NOT_APPLICABLE = {
 }
 
